@@ -342,6 +342,12 @@ class Exec:
 
     def iter_entries(self, it, g):
         """-> list of (guard, value) in iteration order."""
+        if isinstance(it, Choice):
+            # exactly one alternative is the object: its entries under its condition
+            out = []
+            for c, o in it.alts:
+                out += [(AND(c, eg), v) for eg, v in self.iter_entries(o, AND(g, c))]
+            return out
         if isinstance(it, SSeq):
             return list(it.entries)
         if isinstance(it, SSet):
@@ -435,7 +441,15 @@ class Exec:
 
     def method(self, obj, name, args, g):
         if isinstance(obj, Choice):
-            raise PyUnsupported("method on symbolic object choice")
+            # dispatch to every alternative under its condition (in-place effects are guarded)
+            alts = []
+            for c, o in obj.alts:
+                r = self.method(o, name, args, AND(g, c))
+                for c2, v2 in alts_of(r):
+                    alts.append((AND(c, c2), v2))
+            if all(v is None for _, v in alts):
+                return None
+            return Choice(alts)
         if isinstance(obj, SSet):
             if name == "copy":
                 return obj.copy()
@@ -668,6 +682,9 @@ class Exec:
                         alts.append((AND(c, c2), v2))
                 out.append(OR(*[a for a, _ in alts]), Choice(alts))
             return out
+        if name == "dict" and len(args) == 1 and isinstance(args[0], SDict) and not kw:
+            # shallow copy: a new mapping whose values are the SAME objects (mutating them is visible in both)
+            return SDict(args[0].keys, args[0].present, args[0].vals)
         raise PyUnsupported("builtin " + name)
 
     def compare(self, op, a, b):
